@@ -808,7 +808,9 @@ def _div_input(a, elem):
 
 
 # any form that passes {'split': s} may carry the suffix ":np-int64" / ":np-int32": the split is then that numpy scalar
-DIV_SPLIT_TYPES = {"np-int64": np.int64, "np-int32": np.int32}
+DIV_SPLIT_TYPES = {"np-int64": np.int64, "np-int32": np.int32,
+                   # flag-form pass: further integer forms; the code converts with int(...), so an integral float is taken too
+                   "np-uint8": np.uint8, "np-intp": np.intp, "py-float": float, "np-float64": np.float64}
 DIV_CTOR_CALLS = ["ctor", "ctor-omit", "ctor-positional", "ctor-label", "opt-empty", "opt-split-none",
                   "opt-reused-first", "opt-reused-second", "opt-reused-same", "copy-before-def", "copy-after-def", "twice"]
 DIV_STATIC_CALLS = ["static-none", "static-none-kw", "static-ints", "static-desc", "static-tuple", "static-qobj",
@@ -1163,10 +1165,79 @@ def _diversity_calls(ctx):
     _diversity_case(ctx, "dcsp", a, None, fam, call="static-ints", wires=_div_wires("static-ints", "dcsp", n, None, r))
 
 
+def _diversity_flag_forms(ctx):
+    """flag-form pass.  BdspInitialize(params, label, opt_params={'split': s}) / initialize(q_circuit, state, qubits,
+    opt_params); DcspInitialize has no option.  No boolean option.  `split` is the one integer option (documented range
+    1 <= s <= n; its falsy value 0 is OUTSIDE the range: probed and counted, never judged): both ends s = 1, s = n and a middle
+    level, as Python int, np.int64, np.int32, np.uint8, np.intp and integral float / np.float64 (the code applies int(...)),
+    through the constructor (keyword / positional), a copy, and the static helper (qubits None / permuted ints / positional),
+    n = 1 (both ends coincide), 2, 3, 4.  Oracle: widths from the REQUESTED level and the marginals; tie: allocation table,
+    widths, gate list vs the model asked with the Python int.  Falsy-but-valid arguments: label '' (must be kept)."""
+    import qclib.state_preparation.bdsp as bmod
+    r = ctx.rng
+    calls = ("ctor", "ctor-positional", "static-none", "static-ints", "static-positional", "copy-before-def", "static-none-kw")
+    j = 0
+    for n in (1, 2, 3, 4):
+        vecs = [(a, fam, tie) for a, fam, _, tie in _diversity_vectors(ctx, n)
+                if fam in ("div-head-end", "div-real-signed", "div-two-heads", "div-equal-mod-pm1-pmi")]
+        levels = [("low", 1)] + ([("high", n)] if n >= 2 else []) + ([("middle", 1 + r.randrange(1, n - 1))] if n >= 3 else [])
+        for where, s in levels:
+            for suffix in DIV_SPLIT_TYPES:
+                if n == 4 and s == 1 and suffix in ("np-intp", "py-float"):
+                    continue        # width 31: width / own-propagation only, two forms less
+                j += 1
+                call = calls[j % len(calls)]
+                a, fam, tie = vecs[j % len(vecs)]
+                if "float" in suffix:
+                    # documented type is int; an integral float is taken only because the code converts with int(...).
+                    # A clean refusal of that form is not a violation.
+                    try:
+                        bmod.BdspInitialize(list(a), opt_params={"split": DIV_SPLIT_TYPES[suffix](s)})
+                    except (TypeError, ValueError) as e:
+                        ctx.count(f"flagforms:split:{suffix}:{where}:unsupported-{type(e).__name__}")
+                        continue
+                ctx.count(f"flagforms:split:{suffix}:{where}")
+                _diversity_case(ctx, "bdsp", a, s, fam, call=f"{call}:{suffix}", wires=_div_wires(call, "bdsp", n, s, r),
+                                tie=tie and n <= 3)
+    # split = 0: falsy and outside 1 <= s <= n.  The constructor takes it and the definition cannot be built (IndexError in
+    # add_register); what must NOT happen silently is part of no property, so this is a counter only.
+    import qclib.state_preparation.bdsp as mod
+    for n in (1, 2, 3):
+        a = next(iter(_diversity_vectors(ctx, n)))[0]
+        for form, val in (("int", 0), ("np-int64", np.int64(0))):
+            try:
+                g = mod.BdspInitialize(list(a), opt_params={"split": val})
+                d = g.definition
+                ctx.count(f"flagforms:split:{form}:zero:accepted(split={g.split},width={d.num_qubits})")
+            except Exception as e:  # noqa: BLE001 -- outside the documented range
+                ctx.count(f"flagforms:split:{form}:zero:unsupported-{type(e).__name__}")
+    # label '' must be kept (both classes)
+    import qclib.state_preparation.dcsp as dmod
+    for n in (1, 2):
+        a = next(iter(_diversity_vectors(ctx, n)))[0]
+        for kind, cls, dflt in (("bdsp", mod.BdspInitialize, "BDSP"), ("dcsp", dmod.DcspInitialize, "DCSP")):
+            for lab, how in (("", "kw"), ("", "pos"), (None, "kw")):
+                key = f"{kind}:flagforms:label={lab!r}:{how}:n={n}"
+                rep = {"kind": kind, "s": None, "family": "flagforms-label", "re": [float(z.real) for z in a], "im": [float(z.imag) for z in a]}
+                ctx.count(f"flagforms:label:{'empty' if lab == '' else 'none'}:{kind}")
+                try:
+                    g = cls(list(a), lab) if how == "pos" else cls(list(a), label=lab)
+                    got = g.label
+                except Exception as e:  # noqa: BLE001
+                    ctx.fail(key + ":raises", f"{type(e).__name__}: {e}", rep)
+                    continue
+                want = lab if lab is not None else (dflt if kind == "bdsp" else got)
+                if got != want:
+                    ctx.fail(key, f"label {lab!r} requested, the gate carries {got!r}", rep)
+                else:
+                    ctx.ok(key, nontrivial=False)
+
+
 def _diversity_all(ctx):
     _diversity_values(ctx)
     _diversity_elements(ctx)
     _diversity_calls(ctx)
+    _diversity_flag_forms(ctx)
 
 
 def run(ctx, nmax=None):
